@@ -329,6 +329,23 @@ let op_query (a : string array) : string =
   abn r;
   pres r (fun (b, n) -> Printf.sprintf "%d:%s" (ni n) (hex (take (ni n) b)))
 
+(* one whole raw query of the client model (Client.v) over scripted deliveries *)
+let op_xq (a : string array) : string =
+  let std = (a.(0) = "std") in
+  let strategy = n_of_int (match a.(1) with "tcp" -> 1 | "notcp" -> 2 | _ -> 0) in
+  let id = n_of_int (int_of_string a.(2)) in
+  let qname = unhex a.(3) in
+  let qt = n_of_int (int_of_string a.(4)) and qc = n_of_int (int_of_string a.(5)) in
+  let buf = n_of_int (int_of_string a.(6)) in
+  let parts s = if s = "-" then [] else List.map unhex (String.split_on_char '/' s) in
+  let (ev, r) = client_query std strategy id qname qt qc buf (parts a.(7)) (parts a.(8)) in
+  abn r;
+  let evs = String.concat "" (List.map (fun e -> match e with EvUdpExchange -> "U" | EvTcpExchange -> "T") ev) in
+  let rs = match r with
+    | Err (IoError x) -> "err:IoError(" ^ (match ni x with 1 -> "UnexpectedEof" | 2 -> "TimedOut" | k -> string_of_int k) ^ ")"
+    | _ -> pres r (fun b -> Printf.sprintf "%d:%s" (List.length b) (hex b)) in
+  evs ^ " " ^ rs
+
 (* spec side of the names stream: the code-blind RFC expansion (Spec/WireName.v) *)
 let spec_name_line (msg : byte list) (p : int) : string =
   match spec_name msg (n_of_int p) with
@@ -349,6 +366,7 @@ let dispatch (op : string) (a : string array) : string =
   | "textpair" -> op_textpair (unhex a.(0)) (unhex a.(1))
   | "wname" -> op_wname (unhex a.(0)) (int_of_string a.(1))
   | "query" -> op_query a
+  | "xq" -> op_xq a
   | "iter" -> op_iter (unhex a.(0))
   | "rrset" -> op_rrset (int_of_string a.(0)) (unhex a.(1))
   | _ -> "BADOP(" ^ op ^ ")"
